@@ -34,6 +34,10 @@ def handle (line : String) : String :=
     match Wire.decodeReq rest with
     | some r => Wire.runReq r
     | none => "bad-request"
+  | "runa" :: rest =>      -- the same under `SetAutoescape(false)`
+    match Wire.decodeReq rest with
+    | some r => Wire.runReq { r with autoescape := false }
+    | none => "bad-request"
   | _ => "bad-op"
 
 partial def loop (i o : IO.FS.Stream) : IO Unit := do
